@@ -1390,6 +1390,8 @@ func (tx *tx) commit() error {
 		return nil
 	}
 	defer func() { tx.tx, tx.txrrw = nil, nil }()
+	verifPoint("before_commit")
+	defer verifPoint("after_commit")
 	return tx.tx.Commit()
 }
 
